@@ -17,7 +17,8 @@ Result: /verif/seeded/<NAME>/{patch.diff, demo.rs, meta.json, check.log}.
 """
 import fcntl, json, os, re, shutil, subprocess, sys, time
 
-SH_WT, SH_TARGET = "/tmp/mutsuite/wt", "/tmp/mutsuite/target"
+MS = os.environ.get("MUTSUITE", "/tmp/mutsuite")
+SH_WT, SH_TARGET = MS + "/wt", MS + "/target"
 
 def sh(cmd, cwd=None, timeout=4 * 3600, env=None):
     e = dict(os.environ, CARGO_NET_OFFLINE="true")
@@ -35,8 +36,8 @@ def main():
     patch = os.path.join(out, "patch.diff")
     res = {"property": pid, "name": name, "validated_at": time.strftime("%Y-%m-%dT%H:%M:%S")}
     env = {"CARGO_TARGET_DIR": SH_TARGET}
-    os.makedirs("/tmp/mutsuite", exist_ok=True)
-    lock = open("/tmp/mutsuite/lock", "w")
+    os.makedirs(MS, exist_ok=True)
+    lock = open(MS + "/lock", "w")
     fcntl.flock(lock, fcntl.LOCK_EX)
     # The change is validated on top of /repo's CURRENT HEAD (the models in /verif mirror the
     # repaired code, so an older base would make the check disagree for reasons that have nothing
@@ -55,7 +56,7 @@ def main():
     if not os.path.isdir(SH_WT):
         sh(f"git -C /repo worktree add --detach {SH_WT} {base}")
     if not os.path.isdir(SH_TARGET):
-        sh(f"cp -r /repo/target {SH_TARGET}")
+        sh(f"cp -r /repo/target {SH_TARGET}")  # dependencies' artifacts are reusable, the crate rebuilds once
     wt = SH_WT
     # 1. clean shared worktree at the base commit, apply patch
     sh(f"git checkout -q -- . && git clean -fdq && git checkout -q --detach {base}", cwd=wt)
@@ -65,7 +66,7 @@ def main():
         res["applied_with_3way"] = rc == 0
     if rc == 0:
         # from here on work with the patch as it applies to this base
-        patch = os.path.join("/tmp/mutsuite", "current.patch")
+        patch = os.path.join(MS, "current.patch")
         open(patch, "w").write(sh("git diff", cwd=wt)[1])
     res["patch_applies"] = rc == 0
     if rc != 0:
